@@ -143,24 +143,36 @@ theorem exclusive_handout (G S C : Nat) (trace : List Kernel) (evs : List Ev) (u
 example : get (get (run (init false 1 1 2 [[[3, 5]]]) [.drv, .c0, .gpu 0, .gpu 0, .c1 0, .sm 0, .sm 0, .c2 0]).l2 (0 / 2)).cIn (0 % 2)
     ≠ [] := by decide +kernel
 
-/-- **`parse (render t) = t`, repaired reader.**  For every list of well-formed thread blocks (ids and
-    counts in the `int32` fields, `insts = ` line equal to the number of instruction lines, registers
-    from the register table, addresses/masks/immediates in their field ranges, every address-compression
-    form, memory and non-memory lines, warps with `insts = 0`) and every opcode token without a space:
-    `ReadTrace`'s body parser applied to the serialised lines returns exactly the structure. -/
-theorem parse_render (op : List Char) (hop : OpWF op) (ts : List TBT) (hwf : ∀ t ∈ ts, t.WF) :
-    parseBody false (renderBody op ts) = .ok ts :=
-  parseBody_render op hop ts hwf
+/-- **`parse (render t) = t`, repaired reader, opcode included.**  For every list of well-formed thread
+    blocks (ids and counts in the `int32` fields, `insts = ` line equal to the number of instruction lines,
+    registers from the register table, addresses/masks/immediates in their field ranges, every
+    address-compression form, memory and non-memory lines, warps with `insts = 0`, **every instruction
+    carrying any non-empty opcode text without a space** — known to `opcodeTable` or not): `ReadTrace`'s body
+    parser applied to the serialised lines (each line rendered with the instruction's own opcode) returns
+    exactly the structure, `OpCode` text included. -/
+theorem parse_render (ts : List TBT) (hwf : ∀ t ∈ ts, t.WF true) :
+    parseBody false true (renderBody opText ts) = .ok ts :=
+  parseBody_render ts hwf
 
-/-- single instruction line: `extractInst (render i) = i` -/
-theorem parse_render_inst (op : List Char) (hop : OpWF op) (i : Inst) (wf : i.WF) :
-    extractInst false (renderInst op i) = .ok i :=
-  extractInst_render op hop i wf
+/-- single instruction line: `extractInst (render i) = i`, opcode included -/
+theorem parse_render_inst (i : Inst) (wf : i.WF true) :
+    extractInst false true (renderInst opText i) = .ok i :=
+  extractInst_render i wf
 
-/-- a well-formed, non-trivial input of `parse_render`: a memory instruction (address 0x1000) in a
-    one-instruction warp followed by a warp with `insts = 0` -/
-example : ∀ t ∈ [({ id := (3, 0, 1), warps := [{ id := 0, count := 1, insts := [legacyWitness] }, { id := 7 }] } : TBT)],
-    t.WF := by
+/-- a memory instruction (address 0x1000) with an opcode the table does not know -/
+def opWitness : Inst := { legacyWitness with op := some "LDG.E.64".toList }
+
+theorem opWitness_WF : opWitness.WF true := by
+  constructor <;> simp [opWitness, legacyWitness, OpWF]
+
+/-- the rendered line of the witness and what the repaired reader makes of it -/
+example : renderInst opText opWitness = "0010 00000001 0 LDG.E.64 0 4 0 0x1000 7".toList ∧
+    (extractToks false true (renderToks (opText opWitness) opWitness)).toOption = some opWitness := by decide
+
+/-- a well-formed, non-trivial input of `parse_render`: the witness in a one-instruction warp followed by a
+    warp with `insts = 0` -/
+example : ∀ t ∈ [({ id := (3, 0, 1), warps := [{ id := 0, count := 1, insts := [opWitness] }, { id := 7 }] } : TBT)],
+    t.WF true := by
   intro t ht
   simp only [List.mem_singleton] at ht
   subst ht
@@ -172,20 +184,36 @@ example : ∀ t ∈ [({ id := (3, 0, 1), warps := [{ id := 0, count := 1, insts 
     intro i hi
     simp only [List.mem_singleton] at hi
     subst hi
-    exact legacyWitness_WF
+    exact opWitness_WF
   · exact ⟨by decide, by decide, by decide, by decide, by intro i hi; cases hi⟩
 
-/-- **The reader before the fix does not round-trip**: `%x` stops at the `x` of `0x1000`, the
+/-- **The reader before the address fix does not round-trip**: `%x` stops at the `x` of `0x1000`, the
     memory address of the witness instruction is parsed as 0. -/
 theorem parse_render_legacy_refuted :
-    extractInst true (renderInst "OP".toList legacyWitness) ≠ .ok legacyWitness :=
+    extractInst true false (renderInst (fun _ => "OP".toList) legacyWitness) ≠ .ok legacyWitness :=
   legacy_not_roundtrip_line
 
-/-- **The opcode is lost by parsing** (open finding `C20-opcode-dropped`): two serialised
-    instructions that differ only in the opcode token parse to the same structure (`OpCode = nil`),
-    so no `render` that writes the opcode can be inverted by this parser. -/
-theorem parse_render_opcode_lost (op1 op2 : List Char) (h1 : OpWF op1) (h2 : OpWF op2) (i : Inst) (wf : i.WF) :
-    extractInst false (renderInst op1 i) = extractInst false (renderInst op2 i) := by
-  rw [extractInst_render op1 h1 i wf, extractInst_render op2 h2 i wf]
+/-- **Before the opcode repair the opcode was lost by parsing** (was finding `C20-opcode-dropped`;
+    `extractInst false false` = the reader with `NewOpcode` commented out): two serialised instructions that
+    differ only in the opcode token parsed to the same structure (`OpCode = nil`), so no `render` that writes
+    the opcode could be inverted by that parser. -/
+theorem parse_render_opcode_lost_before_fix (op1 op2 : List Char) (h1 : OpWF op1) (h2 : OpWF op2) (i : Inst)
+    (wf : i.WF false) :
+    extractInst false false (renderInst (fun _ => op1) i) = extractInst false false (renderInst (fun _ => op2) i) := by
+  rw [extractInst_render_noop op1 h1 i wf, extractInst_render_noop op2 h2 i wf]
+
+/-- the full round trip was therefore false for the old reader: the witness with its opcode does not come back -/
+theorem parse_render_before_fix_refuted :
+    extractInst false false (renderInst opText opWitness) ≠ .ok opWitness := by
+  have hw : ({ opWitness with op := none } : Inst).WF false := by
+    constructor <;> simp [opWitness, legacyWitness]
+  have h := extractInst_render_noop "LDG.E.64".toList ⟨by decide, by decide⟩ _ hw
+  have e : renderInst (fun _ => "LDG.E.64".toList) { opWitness with op := none } = renderInst opText opWitness := rfl
+  rw [e] at h
+  rw [h]
+  intro hc
+  have := congrArg (fun e => match e with | .ok (x : Inst) => x.op | .error _ => none) hc
+  revert this
+  decide
 
 end C20
